@@ -1,5 +1,225 @@
 /-
-  C03 — de-duplication / hashing.  Property theorems only (filled in as proofs land).
+  C03 — hashing (`cayleypy/hasher.py`) and `get_unique_states`.  Property theorems only; the proofs are in
+  `CvProofs/Hash.lean` (generic, independent of `CvGen`) and `CvProofs/Tensor.lean`.
+  The `gen_*` theorems are the obligations for the constants REGENERATED from the Python source
+  (`CvGen/HashIR.lean`): they are re-checked by `decide` on every build.
 -/
-import CvModel.Hash
+import CvProofs.Hash
+import CvProofs.Tensor
 import CvGen.HashIR
+namespace Cv.C03
+open Cv Cv.Hash
+
+/-- fixed copy of the splitmix64 pipeline (logical shifts), used only in the non-vacuity examples so that they do
+not depend on the regenerated constants -/
+def exSteps : List MixStep :=
+  [.xorShrMasked 30 (logicalMask 30), .mul 0xBF58476D1CE4E5B9#64, .xorShrMasked 27 (logicalMask 27),
+   .mul 0x94D049BB133111EB#64, .xorShrMasked 31 (logicalMask 31)]
+def exInvs : List W := [0x96DE1B173F119089#64, 0x319642B2D24D8EC3#64]
+def exC : W := 2246822507#64
+def exCi : W := 2941351004705347#64
+
+/-! ## generic theorems (no dependence on CvGen) -/
+
+theorem xorShrLogical_injective (k : Nat) (hk : 1 ≤ k) :
+    Function.Injective (MixStep.eval (.xorShrMasked k (logicalMask k))) := by
+  exact Hash.xorShrLogical_injective k hk
+-- non-vacuity: `k = 30` is an instance; the hypothesis `1 ≤ k` is needed (`k = 0` maps everything to 0)
+example : (1 : Nat) ≤ 30 := by decide
+example : MixStep.eval (.xorShrMasked 30 (logicalMask 30)) 0xFFFFFFFFFFFFFFFF#64 = 0xFFFFFFFC00000000#64 := by decide
+example : MixStep.eval (.xorShrMasked 0 (logicalMask 0)) 0#64 = MixStep.eval (.xorShrMasked 0 (logicalMask 0)) 1#64 ∧
+    (0#64 : W) ≠ 1#64 := by decide
+
+theorem mul_injective (c ci : W) (h : c * ci = 1#64) : Function.Injective (MixStep.eval (.mul c)) := by
+  exact Hash.mul_injective c ci h
+example : (0xBF58476D1CE4E5B9#64 : W) * 0x96DE1B173F119089#64 = 1#64 := by decide
+-- an even multiplier is not injective
+example : MixStep.eval (.mul 2#64) 0#64 = MixStep.eval (.mul 2#64) 0x8000000000000000#64 := by decide
+
+theorem evalMix_injective_of_check (steps : List MixStep) (invs : List W) (h : checkMix steps invs = true) :
+    Function.Injective (evalMix steps) := by
+  exact Hash.evalMix_injective_of_check steps invs h
+example : checkMix exSteps exInvs = true := by decide
+example : evalMix exSteps 1#64 = 6238072747940578789#64 := by decide
+
+/-- why the arithmetic-shift version was a defect: `x` and `~x` get the same value -/
+theorem xorShrArith_compl (k : Nat) (x : W) :
+    MixStep.eval (.xorShrArith k) (~~~x) = MixStep.eval (.xorShrArith k) x := by
+  exact Hash.xorShrArith_compl k x
+/-- the same statement with `MixStep.eval` unfolded -/
+theorem xorShrArith_compl' (k : Nat) (x : W) :
+    (~~~x) ^^^ ((~~~x).sshiftRight k) = x ^^^ (x.sshiftRight k) := by
+  exact Hash.xorShrArith_compl' k x
+example : MixStep.eval (.xorShrArith 30) (~~~5#64) = MixStep.eval (.xorShrArith 30) 5#64 ∧ ~~~(5#64 : W) ≠ 5#64 := by
+  decide
+
+theorem arith_mix_collides (k : Nat) (rest : List MixStep) (x : W) :
+    evalMix (.xorShrArith k :: rest) (~~~x) = evalMix (.xorShrArith k :: rest) x := by
+  exact Hash.arith_mix_collides k rest x
+-- the old `_splitmix64` (all shifts arithmetic): 5 and ~5 = -6 collide
+example :
+    let old : List MixStep := [.xorShrArith 30, .mul 0xBF58476D1CE4E5B9#64, .xorShrArith 27,
+      .mul 0x94D049BB133111EB#64, .xorShrArith 31]
+    evalMix old (~~~5#64) = evalMix old 5#64 ∧ ~~~(5#64 : W) ≠ 5#64 := by decide
+
+/-- states that differ in exactly one word never collide, under EVERY seed -/
+theorem one_word_diff_never_collides (steps : List MixStep) (invs : List W) (c ci : W)
+    (hmix : checkMix steps invs = true) (hc : c * ci = 1#64) (seed : W) (pre post : List W) (a b : W) (hab : a ≠ b) :
+    combine steps c seed (pre ++ a :: post) ≠ combine steps c seed (pre ++ b :: post) := by
+  exact Hash.one_word_diff_never_collides steps invs c ci hmix hc seed pre post a b hab
+example : checkMix exSteps exInvs = true ∧ exC * exCi = 1#64 ∧ (3#64 : W) ≠ 4#64 := by decide
+example : combine exSteps exC 7#64 ([1#64, 2#64] ++ 3#64 :: [5#64]) ≠
+    combine exSteps exC 7#64 ([1#64, 2#64] ++ 4#64 :: [5#64]) := by decide
+
+/-- for fixed row, the hash is an injective function of the seed -/
+theorem combine_seed_injective (steps : List MixStep) (c ci : W) (hc : c * ci = 1#64) (row : List W) :
+    Function.Injective (fun seed => combine steps c seed row) := by
+  exact Hash.combine_seed_injective steps c ci hc row
+example : exC * exCi = 1#64 := by decide
+
+/-- swapped words: `[a,b]` vs `[b,a]` are separated by some seed (witness: `seed = mix a`) unless `D*(c-1) = 0`
+    where `D = mix a ^^^ mix b` -/
+theorem swapped_words_separable (steps : List MixStep) (c ci : W) (hc : c * ci = 1#64) (a b : W)
+    (hne : (evalMix steps a ^^^ evalMix steps b) * c ≠ (evalMix steps a ^^^ evalMix steps b)) :
+    ∃ seed, combine steps c seed [a, b] ≠ combine steps c seed [b, a] := by
+  exact Hash.swapped_words_separable steps c ci hc a b hne
+example : exC * exCi = 1#64 ∧
+    (evalMix exSteps 1#64 ^^^ evalMix exSteps 2#64) * exC ≠ (evalMix exSteps 1#64 ^^^ evalMix exSteps 2#64) := by
+  decide
+
+/-- NEGATIVE (known finding D1b, keep visible): the combiner has a seed-independent collision family -/
+theorem combiner_topbit_family (steps : List MixStep) (c : W) (hodd : c.getLsbD 0 = true) (seed a b a' b' : W)
+    (ha : evalMix steps a' = evalMix steps a ^^^ 0x8000000000000000#64)
+    (hb : evalMix steps b' = evalMix steps b ^^^ 0x8000000000000000#64) :
+    combine steps c seed [a, b] = combine steps c seed [a', b'] := by
+  exact Hash.combiner_topbit_family steps c hodd seed a b a' b' ha hb
+-- a concrete member of the family for the splitmix64 pipeline: the two different 2-word states
+-- [1, 2] and [3971391549380807435, 12222427336169081575] have the same hash under EVERY seed
+example : exC.getLsbD 0 = true ∧
+    evalMix exSteps 3971391549380807435#64 = evalMix exSteps 1#64 ^^^ 0x8000000000000000#64 ∧
+    evalMix exSteps 12222427336169081575#64 = evalMix exSteps 2#64 ^^^ 0x8000000000000000#64 := by decide
+example (seed : W) : combine exSteps exC seed [1#64, 2#64] =
+    combine exSteps exC seed [3971391549380807435#64, 12222427336169081575#64] :=
+  Hash.combiner_topbit_family exSteps exC (by decide) seed _ _ _ _ (by decide) (by decide)
+
+/-- the exceptional case of the swapped-words theorems is real: `mix a ^^^ mix b = 2^63` makes `[a,b]` and `[b,a]`
+collide under every seed -/
+theorem swapped_words_topbit_collide (steps : List MixStep) (c : W) (hodd : c.getLsbD 0 = true) (seed a b : W)
+    (hD : evalMix steps a ^^^ evalMix steps b = 0x8000000000000000#64) :
+    combine steps c seed [a, b] = combine steps c seed [b, a] := by
+  exact Hash.swapped_words_topbit_collide steps c hodd seed a b hD
+example : evalMix exSteps 1#64 ^^^ evalMix exSteps 3971391549380807435#64 = 0x8000000000000000#64 := by decide
+
+/-- chunked hashing = unchunked hashing, for every chunk count ≥ 1 -/
+theorem chunked_eq {β : Type} (h : β → W) (k : Nat) (hk : 0 < k) (xs : List β) :
+    chunked h (tensorSplit k xs) = xs.map h := by
+  exact Hash.chunked_eq h k hk xs
+example : tensorSplit 3 [1, 2, 3, 4, 5, 6, 7] = [[1, 2, 3], [4, 5], [6, 7]] := by decide
+example : chunked (fun n : Nat => BitVec.ofNat 64 (n * n)) (tensorSplit 3 [1, 2, 3, 4, 5, 6, 7]) =
+    [1, 2, 3, 4, 5, 6, 7].map (fun n : Nat => BitVec.ofNat 64 (n * n)) := by decide
+-- `0 < k` is needed: with zero chunks everything is lost
+example : chunked (fun n : Nat => BitVec.ofNat 64 n) (tensorSplit 0 [1]) = [] := by decide
+
+/-- identity hasher is injective on single-word states -/
+theorem identity_injective (a b : W) (h : identity [a] = identity [b]) : a = b := by
+  exact Hash.identity_injective a b h
+example : identity [42#64] = 42#64 := by decide
+
+/-- signed order key is injective (hash values compared as int64) -/
+theorem key_injective : Function.Injective key := by
+  exact Hash.key_injective
+example : key 0xFFFFFFFFFFFFFFFF#64 = -1 ∧ key 0x8000000000000000#64 = -9223372036854775808 ∧ key 5#64 = 5 := by
+  decide
+
+/-- random dot product: rows that differ in exactly one coordinate collide iff `(a - b) * v = 0`, `v` being the key
+coordinate at that position -/
+theorem dot_one_coord (vpre vpost pre post : List W) (a b v : W) (hlen : vpre.length = pre.length) :
+    dot (vpre ++ v :: vpost) (pre ++ a :: post) = dot (vpre ++ v :: vpost) (pre ++ b :: post)
+      ↔ (a - b) * v = 0#64 := by
+  exact Hash.dot_one_coord vpre vpost pre post a b v hlen
+-- an even key coordinate does collide: rows [1, 0, 5] and [1, 2^63, 5] under the key [3, 2, 7]
+example : ([3#64] : List W).length = ([1#64] : List W).length ∧ ((0#64 : W) - 0x8000000000000000#64) * 2#64 = 0#64 ∧
+    dot ([3#64] ++ 2#64 :: [7#64]) ([1#64] ++ 0#64 :: [5#64]) =
+    dot ([3#64] ++ 2#64 :: [7#64]) ([1#64] ++ 0x8000000000000000#64 :: [5#64]) := by decide
+
+/-- … hence an odd key coordinate always separates them -/
+theorem dot_one_coord_odd (vpre vpost pre post : List W) (a b v : W) (hlen : vpre.length = pre.length)
+    (hv : v.getLsbD 0 = true) (hab : a ≠ b) :
+    dot (vpre ++ v :: vpost) (pre ++ a :: post) ≠ dot (vpre ++ v :: vpost) (pre ++ b :: post) := by
+  exact Hash.dot_one_coord_odd vpre vpost pre post a b v hlen hv hab
+example : ([3#64] : List W).length = ([1#64] : List W).length ∧ (9#64 : W).getLsbD 0 = true ∧
+    (0#64 : W) ≠ 0x8000000000000000#64 ∧
+    dot ([3#64] ++ 9#64 :: [7#64]) ([1#64] ++ 0#64 :: [5#64]) ≠
+    dot ([3#64] ++ 9#64 :: [7#64]) ([1#64] ++ 0x8000000000000000#64 :: [5#64]) := by decide
+
+/-! ## regenerated obligations (re-checked against `CvGen/HashIR.lean` on every build) -/
+
+theorem gen_fits : Cv.Gen.fitsGrammar = true := by decide
+theorem gen_mix_check : checkMix Cv.Gen.mixSteps Cv.Gen.mixInvs = true := by decide
+theorem gen_combiner_inv : Cv.Gen.combinerMul * Cv.Gen.combinerMulInv = 1#64 := by decide
+
+theorem gen_mix_injective : Function.Injective (evalMix Cv.Gen.mixSteps) :=
+  Hash.evalMix_injective_of_check _ _ gen_mix_check
+example : evalMix Cv.Gen.mixSteps 0#64 = 0#64 ∧ evalMix Cv.Gen.mixSteps 1#64 ≠ evalMix Cv.Gen.mixSteps 2#64 := by
+  decide
+
+theorem gen_one_word_diff (seed : W) (pre post : List W) (a b : W) (hab : a ≠ b) :
+    combine Cv.Gen.mixSteps Cv.Gen.combinerMul seed (pre ++ a :: post) ≠
+    combine Cv.Gen.mixSteps Cv.Gen.combinerMul seed (pre ++ b :: post) := by
+  exact Hash.one_word_diff_never_collides _ _ _ _ gen_mix_check gen_combiner_inv seed pre post a b hab
+example : combine Cv.Gen.mixSteps Cv.Gen.combinerMul 7#64 ([1#64, 2#64] ++ 3#64 :: [5#64]) ≠
+    combine Cv.Gen.mixSteps Cv.Gen.combinerMul 7#64 ([1#64, 2#64] ++ 4#64 :: [5#64]) := by decide
+
+theorem gen_combine_seed_injective (row : List W) :
+    Function.Injective (fun seed => combine Cv.Gen.mixSteps Cv.Gen.combinerMul seed row) := by
+  exact Hash.combine_seed_injective _ _ _ gen_combiner_inv row
+
+/-- for the regenerated constants (`c - 1` has exactly one factor 2): the only exception is `D = 2^63`.
+(STRETCH; depends on the regenerated constant: `c - 1 = 2 * q`, `q` odd, both by `decide`.) -/
+theorem gen_swapped_words (a b : W) (hab : a ≠ b)
+    (hne : evalMix Cv.Gen.mixSteps a ^^^ evalMix Cv.Gen.mixSteps b ≠ 0x8000000000000000#64) :
+    ∃ seed, combine Cv.Gen.mixSteps Cv.Gen.combinerMul seed [a, b] ≠
+      combine Cv.Gen.mixSteps Cv.Gen.combinerMul seed [b, a] := by
+  exact Hash.swapped_words_separable_of_half_odd Cv.Gen.mixSteps Cv.Gen.mixInvs Cv.Gen.combinerMul
+    Cv.Gen.combinerMulInv ((Cv.Gen.combinerMul - 1#64) >>> 1) gen_mix_check gen_combiner_inv
+    (by decide) (by decide) a b hab hne
+example : (1#64 : W) ≠ 2#64 ∧
+    evalMix Cv.Gen.mixSteps 1#64 ^^^ evalMix Cv.Gen.mixSteps 2#64 ≠ 0x8000000000000000#64 := by decide
+
+/-- D1b for the regenerated constants: whenever two words have mix values differing exactly in the top bit, swapping
+them is invisible to the hash under every seed (the combiner multiplier is odd, by `decide`). -/
+theorem gen_swapped_words_topbit_collide (seed a b : W)
+    (hD : evalMix Cv.Gen.mixSteps a ^^^ evalMix Cv.Gen.mixSteps b = 0x8000000000000000#64) :
+    combine Cv.Gen.mixSteps Cv.Gen.combinerMul seed [a, b] =
+      combine Cv.Gen.mixSteps Cv.Gen.combinerMul seed [b, a] := by
+  exact Hash.swapped_words_topbit_collide _ _ (by decide) seed a b hD
+
+/-! ## `get_unique_states` (re-exported from `CvProofs/Tensor.lean`) -/
+
+section
+variable {α : Type}
+
+/-- the kept rows have strictly increasing hashes -/
+theorem uniqueStates_keys_strict (hash : α → Int) (xs : List α) :
+    ((uniqueStates hash xs).map hash).Pairwise (· < ·) := Cv.uniqueStates_keys_strict hash xs
+theorem uniqueStates_subset (hash : α → Int) (xs : List α) : ∀ x ∈ uniqueStates hash xs, x ∈ xs :=
+  Cv.uniqueStates_subset hash xs
+/-- no hash value is lost -/
+theorem uniqueStates_key_mem (hash : α → Int) (xs : List α) (k : Int) :
+    k ∈ (uniqueStates hash xs).map hash ↔ k ∈ xs.map hash := Cv.uniqueStates_key_mem hash xs k
+/-- with the hash injective on the batch: nothing lost -/
+theorem uniqueStates_mem (hash : α → Int) (xs : List α)
+    (hinj : ∀ x ∈ xs, ∀ y ∈ xs, hash x = hash y → x = y) (x : α) :
+    x ∈ uniqueStates hash xs ↔ x ∈ xs := Cv.uniqueStates_mem hash xs hinj x
+theorem uniqueStates_nodup (hash : α → Int) (xs : List α) : (uniqueStates hash xs).Nodup :=
+  Cv.uniqueStates_nodup hash xs
+/-- the representative kept for a hash value is the FIRST row of the batch with that hash (stability) -/
+theorem uniqueStates_first (hash : α → Int) (xs : List α) (x : α) (hx : x ∈ uniqueStates hash xs) :
+    xs.find? (fun y => hash y == hash x) = some x := Cv.uniqueStates_first hash xs x hx
+end
+
+-- non-vacuity: a batch with repeated rows and a hash collision (3 and 13 both hash to 3); the first one is kept
+example : uniqueStates (fun n : Nat => (n % 10 : Int)) [13, 5, 3, 5, 1] = [1, 13, 5] := by
+  simp [uniqueStates, sortByKey, dedupAdj, List.mergeSort, List.MergeSort.Internal.splitInTwo]
+
+end Cv.C03
